@@ -28,6 +28,9 @@ CHECKS = {
     "C08": dict(level="model_checking", tech="symbolic execution + z3: 3+N real runs per path (generator, callback, list, every prefix) with a counting source",
                 text="Hand-over moment, single end-of-stream request, delivery-mode equality and prefix consistency decided per path for streams of <=5 (quick) / 8 (thorough) frames with unbounded parameters; split() laziness on the byte-level harness.",
                 ref="§5 C08"),
+    "C09": dict(level="model_checking", tech="symbolic differential: real split() through every container kind / alias spelling on the same symbolic bytes inside one path, z3 decides region-list equality",
+                text="9 container kinds, 10 alias spellings and max_read (quarter-sample resolution) compared with the run on raw bytes for inputs of <=3 (quick) / 5 (thorough) windows with unbounded sample count, window size and counts.",
+                ref="§5 C09"),
     "C10": dict(level="model_checking", tech="symbolic execution over an uninterpreted byte sequence (segment lists, LIA lengths), z3 decides block identity and existence",
                 text="K consecutive reads (6 quick / 12 thorough) of the real AudioReader stack with source length, block, hop and max_read as unbounded integers; all overlap/limiter/recorder combinations and four input kinds.",
                 ref="§5 C10"),
@@ -37,6 +40,12 @@ CHECKS = {
     "C16": dict(level="model_checking", tech="symbolic execution + z3 (QF_LIA + byte-segment normalisation): slice semantics for all integers n, a, b",
                 text="Real AudioRegion.__getitem__ and the seconds/milliseconds views for unbounded region length and bounds; time bounds as exact rationals.",
                 ref="§5 C16"),
+    "C17": dict(level="model_checking", tech="symbolic execution + z3 (LIA segment normalisation, sequence theory for ==): region algebra over independent uninterpreted byte sequences",
+                text="+, sum, join of up to 4/5 regions, repetition and division by up to 6/8, make_silence for all durations p/q, construction for any byte count, equality; all lengths unbounded.",
+                ref="§5 C17"),
+    "C18": dict(level="model_checking", tech="symbolic differential through in-memory file/wave stubs, z3 decides byte identity and the load(skip,max_read) slice",
+                text="save/to_file then load/from_file for 8 name/format spellings, eager and lazy, with unbounded region length; load(skip,max_read) for all quarter-sample durations incl. past-the-end and zero; numpy export for small windows.",
+                ref="§5 C18"),
     "C19": dict(level="model_checking", tech="symbolic execution + z3 over every operation history of length K",
                 text="Every history of 5 (quick) / 8 (thorough) operations out of read/rewind/.data on a recording reader with unbounded n, block, hop, max_read.",
                 ref="§5 C19"),
